@@ -360,4 +360,83 @@ example : countifs [([[.num 1], [.bool true], [.str "x".toList]], .num 1)] = .ok
 example : sumif [[.num 1], [.num 2], [.num 3]] (.str ">0".toList) (some [[.err .na], [.num 2], [.num 3]])
     = .ok (.err .na) := by decide +kernel
 
+/-! ## repeated pairs (added) -/
+
+theorem parseAll_mem (args : List (Arr × Val)) (pairs : List (Arr × Crit)) (h : parseAll args = some pairs) :
+    ∀ av ∈ args, ∃ k, criteriaParser av.2 = some k ∧ (av.1, k) ∈ pairs := by
+  induction args generalizing pairs with
+  | nil => intro av hav; cases hav
+  | cons a rest ih =>
+    obtain ⟨a1, a2⟩ := a
+    simp only [parseAll] at h
+    cases hc : criteriaParser a2 with
+    | none => rw [hc] at h; simp at h
+    | some k =>
+      cases hr : parseAll rest with
+      | none => rw [hc, hr] at h; simp at h
+      | some r =>
+        rw [hc, hr] at h
+        simp only [Option.some.injEq] at h
+        subst h
+        intro av hav
+        rcases List.mem_cons.mp hav with h1 | h1
+        · subst h1; exact ⟨k, hc, by simp⟩
+        · obtain ⟨k', hk', hm⟩ := ih r hr av h1
+          exact ⟨k', hk', List.mem_cons_of_mem _ hm⟩
+
+/-- **C15 (a repeated pair changes nothing)**: stating a (range, criterion) pair a second time selects exactly the same
+    positions — so COUNTIFS(r,c,r,c) = COUNTIFS(r,c) = COUNTIF(r,c), and likewise for SUMIFS/AVERAGEIFS/MAXIFS/MINIFS.
+    (The code counts, per position, how many pairs matched and compares with the number of pairs; a change that
+    scans equal pairs once but still demands the full count breaks exactly this.) -/
+theorem C15_duplicate_pair (args : List (Arr × Val)) (av : Arr × Val) (hav : av ∈ args) (op : Option Arr) (r c : Nat)
+    (hrect : ∀ av ∈ args, IsRect av.1) (hsize : ∀ av ∈ args, size av.1 = (r, c))
+    (hop : ∀ o, op = some o → size o = (r, c))
+    (pairs : List (Arr × Crit)) (hparse : parseAll args = some pairs) :
+    handleIfs (av :: args) op = handleIfs args op := by
+  have hne : args ≠ [] := by intro h; rw [h] at hav; cases hav
+  obtain ⟨k, hk, hmem⟩ := parseAll_mem args pairs hparse av hav
+  have hparse' : parseAll (av :: args) = some ((av.1, k) :: pairs) := by
+    obtain ⟨a1, a2⟩ := av
+    simp only [parseAll, hk, hparse]
+  have hrect' : ∀ x ∈ av :: args, IsRect x.1 := by
+    intro x hx; rcases List.mem_cons.mp hx with h | h
+    · subst h; exact hrect _ hav
+    · exact hrect _ h
+  have hsize' : ∀ x ∈ av :: args, size x.1 = (r, c) := by
+    intro x hx; rcases List.mem_cons.mp hx with h | h
+    · subst h; exact hsize _ hav
+    · exact hsize _ h
+  rw [C15_selects_exactly (av :: args) op r c (by simp) hrect' hsize' hop _ hparse',
+      C15_selects_exactly args op r c hne hrect hsize hop pairs hparse]
+  congr 1
+  apply List.filter_congr
+  intro p _
+  simp only [List.all_cons]
+  cases hs : sat k (cell av.1 p) with
+  | true => simp
+  | false =>
+    simp only [Bool.false_and]
+    symm
+    rw [List.all_eq_false]
+    exact ⟨(av.1, k), hmem, by simp [hs]⟩
+
+/-- the …IFS functions themselves: a repeated pair leaves every one of them unchanged -/
+theorem C15_duplicate_pair_functions (args : List (Arr × Val)) (av : Arr × Val) (hav : av ∈ args) (r c : Nat)
+    (hrect : ∀ av ∈ args, IsRect av.1) (hsize : ∀ av ∈ args, size av.1 = (r, c))
+    (pairs : List (Arr × Crit)) (hparse : parseAll args = some pairs) :
+    countifs (av :: args) = countifs args ∧
+    (∀ rng, size rng = (r, c) → sumifs rng (av :: args) = sumifs rng args ∧
+        averageifs rng (av :: args) = averageifs rng args ∧ maxifs rng (av :: args) = maxifs rng args ∧
+        minifs rng (av :: args) = minifs rng args) := by
+  have k0 := C15_duplicate_pair args av hav none r c hrect hsize (by intro o h; cases h) pairs hparse
+  refine ⟨by simp [countifs, k0], fun rng hr => ?_⟩
+  have k1 := C15_duplicate_pair args av hav (some rng) r c hrect hsize
+    (by intro o h; cases h; exact hr) pairs hparse
+  simp [sumifs, averageifs, maxifs, minifs, aggregate, k1]
+
+example : ∃ (a : Arr) (v : Val) (pairs : List (Arr × Crit)),
+    parseAll [(a, v)] = some pairs ∧ IsRect a ∧ size a = (2, 1) ∧
+    countifs [(a, v), (a, v)] = countifs [(a, v)] ∧ countifs [(a, v)] = .ok (.num 1) :=
+  ⟨[[.num 1], [.num 5]], .str ">1".toList, _, rfl, by intro row h; simp at h; rcases h with h | h <;> subst h <;> rfl, rfl, by decide +kernel, by decide +kernel⟩
+
 end Pycel.Criteria
